@@ -325,7 +325,7 @@ impl World {
                     *cfg = b.build().unwrap();
                 }
                 let node = net::with_net(|n| n.nodes.len());
-                let lst = l.as_ref().map(|_| RecL { level: "participant", owner: *p });
+                let lst = l.as_ref().filter(|x| !x.nil).map(|_| RecL { level: "participant", owner: *p });
                 let r = self.factory.create_participant(*domain, QosKind::Specific(participant_qos(q)), lst, &l_mask(l)).await;
                 match r {
                     Ok(dp) => {
@@ -341,7 +341,7 @@ impl World {
             }
             Op::CreateTopic { p, id, name, ty, q, l } => {
                 let Some(dp) = self.participant(*p) else { return Res::Skipped("no participant") };
-                let lst = l.as_ref().map(|_| RecL { level: "topic", owner: *id });
+                let lst = l.as_ref().filter(|x| !x.nil).map(|_| RecL { level: "topic", owner: *id });
                 let qos = QosKind::Specific(topic_qos(q));
                 let m = l_mask(l);
                 let r = match ty {
@@ -380,7 +380,7 @@ impl World {
             }
             Op::CreatePublisher { p, id, q, l } => {
                 let Some(dp) = self.participant(*p) else { return Res::Skipped("no participant") };
-                let lst = l.as_ref().map(|_| RecL { level: "publisher", owner: *id });
+                let lst = l.as_ref().filter(|x| !x.nil).map(|_| RecL { level: "publisher", owner: *id });
                 match dp.create_publisher(QosKind::Specific(publisher_qos(q)), lst, &l_mask(l)).await {
                     Ok(x) => {
                         self.st.borrow_mut().publishers.insert(*id, (x, *p));
@@ -391,7 +391,7 @@ impl World {
             }
             Op::CreateSubscriber { p, id, q, l } => {
                 let Some(dp) = self.participant(*p) else { return Res::Skipped("no participant") };
-                let lst = l.as_ref().map(|_| RecL { level: "subscriber", owner: *id });
+                let lst = l.as_ref().filter(|x| !x.nil).map(|_| RecL { level: "subscriber", owner: *id });
                 match dp.create_subscriber(QosKind::Specific(subscriber_qos(q)), lst, &l_mask(l)).await {
                     Ok(x) => {
                         self.st.borrow_mut().subscribers.insert(*id, (x, *p));
@@ -417,7 +417,7 @@ impl World {
                 let Some((pb, p)) = pb else { return Res::Skipped("no publisher") };
                 let t = self.st.borrow().topics.get(&(p, *topic)).cloned();
                 let Some(TopicH::Plain(t, ty)) = t else { return Res::Skipped("no topic") };
-                let lst = l.as_ref().map(|_| RecL { level: "writer", owner: *id });
+                let lst = l.as_ref().filter(|x| !x.nil).map(|_| RecL { level: "writer", owner: *id });
                 let qos = QosKind::Specific(writer_qos(q));
                 let m = l_mask(l);
                 let r: DdsResult<WriterH> = match ty {
@@ -443,7 +443,7 @@ impl World {
                 let Some((sb, p)) = sb else { return Res::Skipped("no subscriber") };
                 let t = self.st.borrow().topics.get(&(p, *topic)).cloned();
                 let Some(t) = t else { return Res::Skipped("no topic") };
-                let lst = l.as_ref().map(|_| RecL { level: "reader", owner: *id });
+                let lst = l.as_ref().filter(|x| !x.nil).map(|_| RecL { level: "reader", owner: *id });
                 let qos = QosKind::Specific(reader_qos(q));
                 let m = l_mask(l);
                 let (td, ty): (&dyn dust_dds::dds_async::topic_description::TopicDescriptionAsync, Ty) = match &t {
